@@ -60,6 +60,11 @@ func FromReader(reader io.Reader) (*Dialogue, error) {
 	p.AddErrorListener(errorListener)
 
 	parseTree := p.Dialogue()
+	// The dialogue rule does not end with EOF: the parser stops, without an error, at the first token that cannot
+	// start another node. Whatever is left then belongs to no node, and ignoring it would load some other script.
+	if next := stream.LT(1); len(errorListener.errs) == 0 && next.GetTokenType() != antlr.TokenEOF {
+		errorListener.errs = append(errorListener.errs, fmt.Errorf("line %d:%d extraneous input %q after the end of a node", next.GetLine(), next.GetColumn(), next.GetText()))
+	}
 	if len(errorListener.errs) != 0 {
 		return nil, fmt.Errorf("failed to parse dialogue: %w", errors.Join(errorListener.errs...))
 	}
